@@ -25,7 +25,7 @@ impl Property for C09 {
          oracle = f + sum_c w_c g_c^2 (resp. f + w sum g_c^2) as an exact polynomial in the joint variables (x, w) + bookkeeping model; non-trivial = >=2 active constraints of degree>=1 or >=1 pre-existing removed constraint; distinct = sha256(instance, method, weights)"
     }
     fn required_labels(&self) -> Vec<String> {
-        ["method=per-constraint", "method=uniform", "pre-removed", "absent-function", "noncontiguous-ids", "instantiated", "hints", "dependency", "regime=general", "regime=dyadic", "removed-reason-of-sdk-transformation"].iter().map(|s| s.to_string()).collect()
+        ["method=per-constraint", "method=uniform", "pre-removed", "absent-function", "noncontiguous-ids", "instantiated", "hints", "dependency", "regime=general", "regime=dyadic", "removed-reason-of-sdk-transformation", "constraint-id=u64::MAX"].iter().map(|s| s.to_string()).collect()
     }
     fn cases(&self, tier: Tier) -> usize {
         match tier {
